@@ -170,6 +170,9 @@ def execute(h):
                  '+7/3', '-0'][(step + len(sym)) % 11]
         amt_n = [3, 2.5, Fraction(7, 3), Decimal('-1.5'),
                  '12'][(step + len(sym)) % 5]
+        # (a symbol with leading / trailing white space cannot be spelled in
+        # an amount-and-symbol string - the string forms are skipped for it)
+        spellable = sym == sym.strip()
         for how, fn in (('number_and_unit', lambda: Quantity(amt_n, u)),
                         ('string', lambda: Quantity(f"{amt_s} {sym}")),
                         ('own_class_string', lambda: cls(f"{amt_s} {sym}")),
@@ -180,6 +183,8 @@ def execute(h):
                          lambda: Quantity(f"{amt_s} {sym}", u)),
                         ('own_class_string_and_unit',
                          lambda: cls(f"{amt_s} {sym}", u))):
+            if 'string' in how and not spellable:
+                continue
             try:
                 q = fn()
             except Exception as e:      # noqa
